@@ -18,6 +18,7 @@ CONTEXTS = {
     "heading": "== AAq %s ZZq ==\n",
     "after-open-link": "[[ AAq %s ZZq",
     "ref": "<ref>AAq %s ZZq</ref>",
+    "ref-after-region": "<nowiki>QQq</nowiki> <ref>AAq %s ZZq</ref>",  # two marker scopes: the page's and the footnote's
     "deflist": "; t : AAq %s ZZq\n",
     "caption": "{|\n|+ AAq %s ZZq\n|-\n| x\n|}\n",
     "uc-arg": "{{uc:AAQ %s ZZQ}}",
@@ -34,7 +35,7 @@ def embed(cname, tagged):
     return tpl % {"t": tagged} if "%(t)s" in tpl else tpl % tagged
 
 MARKERS = {"uc-arg": ("AAQ ", " ZZQ")}
-DB_CONTEXTS = ("template-arg", "ref", "uc-arg", "template-sibling")
+DB_CONTEXTS = ("template-arg", "uc-arg", "template-sibling")
 # bodies that consist of one delimiter only: a parser that looks at token text without its type takes them for markup
 DELIMITER_BODIES = ["|", "||", "!", "!!", "|-", "|+", "=", "}}", "{{", "]]", "[[", "*", ":", ";", "''", "----", "|}", "{|", "\n", " ", "<", ">", "&", "#"]
 
@@ -44,7 +45,7 @@ META = dict(
         "Hypothesis draws (tag of {nowiki, pre, math, source, syntaxhighlight, timeline} in any letter case with optional blanks before "
         "'>', attributes, body = lexeme soup over the full alphabet (wiki markup, template calls, parameters, HTML and include-control "
         "tags, comments, well- and ill-formed entities) minus the tag's own closing tag and U+007F (for pre also minus <nowiki>), one of "
-        "15 embedding contexts (incl. table caption, the region quoted in <nowiki> next to the real one, parser-function argument, next to templates that hold opaque regions themselves), with a wiki database (expander path) or without). Oracle: the text carried by the tag's node equals the "
+        "16 embedding contexts (incl. table caption, the region quoted in <nowiki> next to the real one, parser-function argument, next to templates that hold opaque regions themselves), with a wiki database (expander path) or without). Oracle: the text carried by the tag's node equals the "
         "body - for nowiki/pre modulo a strict reference entity grammar in which every well-formed character reference matches itself or "
         "its character; the multiset of non-Text node classes equals that of the same context with a plain-word body; the uniq "
         "protect/restore round trip is the identity. Non-trivial: the body holds >= 1 markup lexeme that would build a node if interpreted."
@@ -61,6 +62,8 @@ ENT = re.compile(r"&(#[0-9]+|#[xX][0-9a-fA-F]+|[A-Za-z][A-Za-z0-9]*);")
 
 
 def entity_char(name):
+    if name.startswith("#") and len(name.lstrip("#xX").lstrip("0")) > 8:
+        return None  # far above U+10FFFF (and possibly beyond what int() converts): not a character
     if name.startswith("#x") or name.startswith("#X"):
         v = int(name[2:], 16)
     elif name.startswith("#"):
@@ -69,8 +72,8 @@ def entity_char(name):
         v = html.entities.name2codepoint.get(name)
         if v is None:
             return None
-    if v is None or v >= 0x110000:
-        return None
+    if v is None or v >= 0x110000 or 0xD800 <= v <= 0xDFFF:
+        return None  # (a surrogate is not a character: the reference stays literal)
     return chr(v)
 
 
@@ -97,7 +100,7 @@ def valid_body(tag, body, context=None):
         return False  # a caption is a one-line construct
     if context in TWIN_CONTEXTS and (tag == "nowiki" or re.search(r"</?nowiki", body, re.I) or "<!--" in body):
         return False  # the quoting <nowiki> must stay one region (comments are dropped inside nowiki, kept as source elsewhere)
-    if context == "ref" and re.search(r"</ref", body, re.I):
+    if context in ("ref", "ref-after-region") and re.search(r"</ref", body, re.I):
         return False  # would close the surrounding <ref> of the context (as it does in MediaWiki), not an opacity question
     if re.search(r"</%s\s*>" % tag, body, re.I):
         return False
